@@ -1214,8 +1214,10 @@ func (db *DB) acquireReadLock(ctx context.Context) error {
 		return nil
 	}
 
-	// Start long running read-transaction to prevent checkpoints.
-	tx, err := db.db.BeginTx(ctx, nil)
+	// Start long running read-transaction to prevent checkpoints. It must outlive
+	// the call that (re)acquires it: database/sql rolls a transaction back as soon
+	// as the context it was begun with ends, e.g. when a sync request is answered.
+	tx, err := db.db.BeginTx(context.WithoutCancel(ctx), nil)
 	if err != nil {
 		return err
 	}
